@@ -31,6 +31,8 @@ type Thread struct {
 	Name    string
 	state   int
 	want    *zzverifsync.Mutex
+	wantR   *zzverifsync.RWMutex // parked in front of RLock / write Lock of an RWMutex
+	wantW   bool
 	goid    uint64
 	body    func()
 	panic   string
@@ -216,6 +218,87 @@ func setHook(e *Exec) {
 	zzverifsync.Hook = e
 }
 
+//go:norace
+func (e *Exec) canTake(t *Thread) bool {
+	if t.wantR != nil {
+		if t.wantW {
+			return t.wantR.W().VerifOwner() == 0 && t.wantR.VerifReaders() == 0
+		}
+		return t.wantR.W().VerifOwner() == 0
+	}
+	if t.want == nil {
+		return true
+	}
+	return t.want.VerifOwner() == 0
+}
+
+// park is the common part of every lock hook: give the baton back and wait to be chosen.
+//
+//go:norace
+func (e *Exec) park(t *Thread) {
+	t.locks++
+	wasCur := e.cur == t
+	t.state = stParked
+	if wasCur {
+		e.cur = nil
+	}
+	e.waitTurn(t)
+}
+
+// Yield is a scheduling point that is always enabled (an environment event the thread waits for, such
+// as the peer closing its connection). Goroutines lal started itself do not yield.
+//
+//go:norace
+func (e *Exec) Yield() {
+	t := e.lookup()
+	if t.spawned {
+		return
+	}
+	t.want, t.wantR = nil, nil
+	e.park(t)
+}
+
+//go:norace
+func (e *Exec) BeforeRLock(m *zzverifsync.RWMutex) {
+	t := e.lookup()
+	t.wantR, t.wantW = m, false
+	e.park(t)
+	t.wantR = nil
+	t.depth++
+}
+
+//go:norace
+func (e *Exec) AfterRUnlock(m *zzverifsync.RWMutex) {
+	e.released(e.lookup())
+}
+
+//go:norace
+func (e *Exec) BeforeWLock(m *zzverifsync.RWMutex) {
+	t := e.lookup()
+	t.wantR, t.wantW = m, true
+	e.park(t)
+	m.W().VerifSetOwner(t.ID + 1)
+	t.wantR = nil
+	t.depth++
+}
+
+//go:norace
+func (e *Exec) AfterWUnlock(m *zzverifsync.RWMutex) {
+	m.W().VerifSetOwner(0)
+	e.released(e.lookup())
+}
+
+//go:norace
+func (e *Exec) released(t *Thread) {
+	t.depth--
+	if t.spawned && t.depth == 0 {
+		t.state = stFree
+		if e.cur == t {
+			e.cur = nil
+		}
+	}
+}
+
 // Run schedules until every thread is done, a deadlock is found or nothing moves for the hang limit.
 //
 //go:norace
@@ -248,7 +331,7 @@ func (e *Exec) Run(hangAfter time.Duration) {
 		}
 		var enabled []*Thread
 		for _, t := range cands {
-			if t.getState() == stNew || t.getWant().VerifOwner() == 0 {
+			if t.getState() == stNew || e.canTake(t) {
 				enabled = append(enabled, t)
 			}
 		}
@@ -256,8 +339,12 @@ func (e *Exec) Run(hangAfter time.Duration) {
 			var sb strings.Builder
 			for _, t := range parked {
 				h := "?"
-				if o := t.getWant().VerifOwner(); o > 0 && o <= len(e.threads) {
-					h = e.threads[o-1].Name
+				if w := t.getWant(); w != nil {
+					if o := w.VerifOwner(); o > 0 && o <= len(e.threads) {
+						h = e.threads[o-1].Name
+					}
+				} else if t.wantR != nil {
+					h = fmt.Sprintf("owner %d / %d readers of an RWMutex", t.wantR.W().VerifOwner(), t.wantR.VerifReaders())
 				}
 				fmt.Fprintf(&sb, "%s waits for a mutex held by %s; ", t.Name, h)
 			}
